@@ -160,6 +160,21 @@ def oTrace (t : List String) : String := if t.isEmpty then "_" else ",".intercal
 def hasNonAscii (evs : List HEv) : Bool :=
   evs.any (fun e => match e with | .byte b => b.toNat ≥ 128 | _ => false)
 
+/-- complete lines (ending in LF) among the bytes of the first `n` events. -/
+def consumedLines (evs : List HEv) (n : Nat) : List Bytes :=
+  let bs := (evs.take n).filterMap (fun e => match e with | .byte b => some b | _ => none)
+  let rec go : List UInt8 → Bytes → List Bytes
+    | [], _ => []
+    | b :: r, acc => if b = 10 then (acc.reverse ++ [b]) :: go r [] else go r (b :: acc)
+  go bs []
+
+/-- the model's answer is meaningful unless a *decodable* line with a non-ASCII character was
+    processed (Unicode strip / lower / int are not modelled). -/
+def unmodelled (evs : List HEv) (n : Nat) : Bool :=
+  match (consumedLines evs n).find? (fun l => l.any (fun b => b.toNat ≥ 128)) with
+  | some l => (decodeUtf8 l).isSome
+  | none => false
+
 def oReq (r : Spec.Http.Req) : String :=
   oStr r.target ++ " " ++
     (if r.headers.isEmpty then "_"
@@ -224,19 +239,19 @@ def ops : List String → Option String
     | some t, some ev =>
       match readHeaders ⟨ev, t, none⟩ with
       | (.ok h, s', n) =>
-        some (if hasNonAscii ev then "unmodelled" else
+        some (if unmodelled ev n then "unmodelled" else
           s!"ok {oOptInt h.status} {oOptStr h.msg} {oDict h.headers} reads={n} left={(s'.inp.filter (fun e => match e with | .byte _ => true | _ => false)).length}")
       | (.error e, _, n) =>
-        some (if hasNonAscii ev ∧ e ≠ .internal "UnicodeDecodeError" ∧ ¬ (Gen.h2DecodeGuard ∧ e = .wsgeneric)
-              then "unmodelled" else s!"exn {e.toStr} reads={n}")
+        some (if unmodelled ev n then "unmodelled" else s!"exn {e.toStr} reads={n}")
     | _, _ => none
   | ["m-resp-headers", t, ev] =>
     match pTail t, pEvents ev with
     | some t, some ev =>
-      if hasNonAscii ev then some "unmodelled" else
       match getRespHeaders ⟨ev, t, none⟩ with
-      | (.ok (st, d), _, io) => some s!"ok {st} {oDict d} io={oTrace (io.map (oIo ""))}"
-      | (.error e, _, io) => some s!"exn {e.toStr} io={oTrace (io.map (oIo ""))}"
+      | (.ok (st, d), _, io) =>
+        some (if unmodelled ev io.length then "unmodelled" else s!"ok {st} {oDict d} io={oTrace (io.map (oIo ""))}")
+      | (.error e, _, io) =>
+        some (if unmodelled ev io.length then "unmodelled" else s!"exn {e.toStr} io={oTrace (io.map (oIo ""))}")
     | _, _ => none
   | ["m-validate", d, k, subs] =>
     match pDict d, pStr k, pStrList subs with
